@@ -270,3 +270,13 @@ pub fn describe(f: impl FnOnce() -> String) {
         DESCR.with(|d| *d.borrow_mut() = s);
     }
 }
+
+/// Resident set size of this process in bytes (0 if unknown).
+pub fn rss_bytes() -> u64 {
+    std::fs::read_to_string("/proc/self/statm").ok().and_then(|s| s.split_whitespace().nth(1).and_then(|x| x.parse::<u64>().ok())).map(|pages| pages * 4096).unwrap_or(0)
+}
+
+/// Memory cap for the engines (all concurrently running explorations share the process).
+pub fn rss_cap_bytes() -> u64 {
+    std::env::var("VERIF_MAX_RSS_GB").ok().and_then(|s| s.parse::<u64>().ok()).unwrap_or(24) * (1 << 30)
+}
